@@ -364,12 +364,21 @@ func LoopTouched(ids []int) LP {
 // onlyAfterExhaustion records "targets are not reachable from inside the loop
 // over x except through its exhaustion edge".
 func (c *Check) onlyAfterExhaustion(pg *PG, rule, construct, desc string, x string, targets []*PState) bool {
-	body := edgeTargets(pg, RangeNext(x))
+	next, done := RangeNext(x), RangeDone(x)
+	if len(c.loopFilter) > 0 {
+		ids := map[int]bool{}
+		for _, i := range c.loopFilter {
+			ids[i] = true
+		}
+		next = LP{Desc: next.Desc, F: func(l Label) bool { return l.Kind == "rangenext" && l.Key == x && ids[l.Node.LoopID] }}
+		done = LP{Desc: done.Desc, F: func(l Label) bool { return l.Kind == "rangedone" && l.Key == x && ids[l.Node.LoopID] }}
+	}
+	body := edgeTargets(pg, next)
 	if len(body) == 0 {
 		c.add(rule, construct, desc+" — no range loop over "+x+" found", false, "")
 		return false
 	}
-	path, found := c.search(pg, body, inSet(targets), blockedBy(RangeDone(x)))
+	path, found := c.search(pg, body, inSet(targets), blockedBy(done))
 	if !found {
 		c.add(rule, construct, desc+": reachable from the loop over "+x+" only through its exhaustion", true, pg.G.P.pos(body[0].Node.Pos))
 		return true
